@@ -892,3 +892,364 @@ Proof.
       destruct (assoc k (b_cfg b)); [reflexivity|discriminate Hkeys].
     + destruct (req_item _ _ _) as [v|] eqn:E2; [now apply Hreq|reflexivity].
 Qed.
+
+(* ------------------------------------------------------------------ *)
+(* chains: required features that are themselves computed (depth 2)    *)
+(* ------------------------------------------------------------------ *)
+Definition is_out (reg : list recipe) (x : Z) : bool :=
+  existsb (fun r => (r_name r =? x) || memZ x (r_outs r)) reg.
+
+(* the selection of a recipe for [g] cannot depend on the cache: every
+   feature its instances require is stored or can never be in the cache *)
+Definition stable (reg : list recipe) (b : base) (g : Z) : bool :=
+  forallb (fun r' => negb (r_name r' =? g)
+                     || (forallb (fun x => in_base b x || negb (is_out reg x))
+                                 (r_feats r')
+                         && negb (r_rf r' =? 2))) reg.
+
+Definition cache_outs (reg : list recipe) (s : state) : Prop :=
+  forall x, has x (s_cache s) = true -> is_out reg x = true.
+
+Lemma inv_cache_outs : forall reg s, Inv reg s -> cache_outs reg s.
+Proof.
+  intros reg s HI x Hx. unfold has in Hx.
+  destruct (assoc x (s_cache s)) as [hv|] eqn:E; [|discriminate Hx].
+  apply assoc_in in E. destruct (HI _ _ E) as [r0 [st0 [Hin [Hout _]]]].
+  unfold is_out. apply existsb_exists. exists r0. split; [exact Hin|].
+  rewrite Hout. apply orb_true_r.
+Qed.
+
+Lemma forallb_ext_in {A} : forall (p q : A -> bool) l,
+  (forall x, In x l -> p x = q x) -> forallb p l = forallb q l.
+Proof.
+  induction l as [|a l IH]; simpl; intros H; auto.
+  rewrite (H a) by now left. f_equal. apply IH. intros x Hx. apply H. now right.
+Qed.
+
+Lemma existsb_ext_in {A} : forall (p q : A -> bool) l,
+  (forall x, In x l -> p x = q x) -> existsb p l = existsb q l.
+Proof.
+  induction l as [|a l IH]; simpl; intros H; auto.
+  rewrite (H a) by now left. f_equal. apply IH. intros x Hx. apply H. now right.
+Qed.
+
+Lemma find_ext_in {A} : forall (p q : A -> bool) l,
+  (forall x, In x l -> p x = q x) -> find p l = find q l.
+Proof.
+  induction l as [|a l IH]; simpl; intros H; auto.
+  rewrite (H a) by now left. destruct (q a); [reflexivity|].
+  apply IH. intros x Hx. apply H. now right.
+Qed.
+
+Lemma not_out_no_recipe : forall reg x,
+  is_out reg x = false -> filter (fun o => r_name o =? x) reg = [].
+Proof.
+  intros reg x H. induction reg as [|r reg IH]; simpl in *; auto.
+  apply orb_false_iff in H. destruct H as [H1 H2].
+  apply orb_false_iff in H1. destruct H1 as [H1 _]. rewrite H1. now apply IH.
+Qed.
+
+Lemma contains_stable_x : forall reg n s c x,
+  s_base c = s_base s -> cache_outs reg s -> cache_outs reg c ->
+  in_base (s_base s) x || negb (is_out reg x) = true ->
+  contains n reg s x = contains n reg c x.
+Proof.
+  intros reg n s c x Hb Hs Hc Hx. destruct n as [|m]; [reflexivity|].
+  cbn [contains]. rewrite Hb.
+  destruct (in_base (s_base s) x) eqn:E; [reflexivity|].
+  cbn [orb] in Hx. apply negb_true_iff in Hx.
+  assert (H1 : has x (s_cache s) = false).
+  { destruct (has x (s_cache s)) eqn:Eh; auto. apply Hs in Eh. congruence. }
+  assert (H2 : has x (s_cache c) = false).
+  { destruct (has x (s_cache c)) eqn:Eh; auto. apply Hc in Eh. congruence. }
+  rewrite H1, H2, (not_out_no_recipe reg x Hx). reflexivity.
+Qed.
+
+Lemma stable_recipe : forall reg b r',
+  In r' reg -> stable reg b (r_name r') = true ->
+  forallb (fun x => in_base b x || negb (is_out reg x)) (r_feats r') = true
+  /\ (r_rf r' =? 2) = false.
+Proof.
+  intros reg b r' Hin Hst. unfold stable in Hst. rewrite forallb_forall in Hst.
+  specialize (Hst r' Hin). rewrite Z.eqb_refl in Hst. cbn [negb orb] in Hst.
+  apply andb_prop in Hst. destruct Hst as [H1 H2].
+  split; [exact H1|now apply negb_true_iff in H2].
+Qed.
+
+Lemma avail_stable : forall reg n s c,
+  s_base c = s_base s -> cache_outs reg s -> cache_outs reg c ->
+  forall r', In r' reg -> stable reg (s_base s) (r_name r') = true ->
+    avail n reg s r' = avail n reg c r'.
+Proof.
+  intros reg n s c Hb Hs Hc. induction n as [|n IH]; intros r' Hin Hst;
+    [reflexivity|].
+  destruct (stable_recipe reg (s_base s) r' Hin Hst) as [Hf Hrf].
+  cbn [avail]. rewrite Hb. rewrite Hrf.
+  assert (E1 : forallb (contains n reg s) (r_feats r')
+               = forallb (contains n reg c) (r_feats r')).
+  { apply forallb_ext_in. intros x Hx. rewrite forallb_forall in Hf.
+    apply contains_stable_x; auto. }
+  assert (E2 : existsb (avail n reg s)
+                 (filter (fun o => (r_name o =? r_name r')
+                                   && (r_prio r' <? r_prio o)) reg)
+               = existsb (avail n reg c)
+                 (filter (fun o => (r_name o =? r_name r')
+                                   && (r_prio r' <? r_prio o)) reg)).
+  { apply existsb_ext_in. intros o Ho. apply filter_In in Ho.
+    destruct Ho as [Ho Hn]. apply andb_prop in Hn. destruct Hn as [Hn _].
+    apply Z.eqb_eq in Hn. apply IH; [exact Ho|]. now rewrite Hn. }
+  rewrite E1, E2. reflexivity.
+Qed.
+
+Lemma select_stable : forall reg s c g,
+  s_base c = s_base s -> cache_outs reg s -> cache_outs reg c ->
+  stable reg (s_base s) g = true ->
+  select SF reg s g = select SF reg c g.
+Proof.
+  intros reg s c g Hb Hs Hc Hst. unfold select. apply find_ext_in.
+  intros r' Hin. apply in_rev in Hin.
+  destruct (r_name r' =? g) eqn:E; cbn [andb]; [|reflexivity].
+  apply Z.eqb_eq in E. apply avail_stable; auto. now rewrite E.
+Qed.
+
+(* reads never change the stored data / configuration *)
+Lemma read_base : forall reg n st f, s_base (fst (read n reg st f)) = s_base st.
+Proof.
+  intros reg. induction n as [|n IH]; intros st f; [reflexivity|].
+  rewrite read_S.
+  destruct (feat_raw (s_base st) f); [reflexivity|].
+  destruct (select SF reg st f) as [r|]; [|reflexivity].
+  pose proof (fold_hash_prop (read n reg) (fun s => s_base s = s_base st)
+                (fun s g Hs => eq_trans (IH s g) Hs) (r_feats r) st [] None
+                eq_refl) as HB.
+  destruct (fold_left (hash_step (read n reg)) (r_feats r) (st, [], None))
+    as [[st1 fvals] err].
+  cbn [fst] in HB.
+  destruct err as [k|]; [exact HB|].
+  cbv zeta.
+  match goal with
+  | |- context [match ?X with Some v => (st1, Ok v) | None => _ end] =>
+      destruct X as [v|]
+  end; [exact HB|].
+  destruct (r_mkind r =? 1).
+  - destruct (emod_outcome _ _ _ _); exact HB.
+  - destruct (r_mkind r =? 2).
+    + destruct (ctc_missing AF reg st1); exact HB.
+    + exact HB.
+Qed.
+
+Definition items_of (reg : list recipe) (b : base) (r : recipe) (vs : list val)
+  : list item :=
+  map ItFeat vs
+  ++ map (fun k => ItCfg k (match cfg b k with Some v => v | None => 0 end))
+         (r_keys r)
+  ++ (if rf_hashed r then [ItReq (map (direct AF reg (fresh b)) (r_extra r))]
+      else []).
+
+(* the value of [f] computed by [r] when its required features have the
+   values [vs] *)
+Definition value_of (reg : list recipe) (b : base) (r : recipe) (f : Z)
+  (vs : list val) : val :=
+  Comp (r_meth r) f
+    (map (view_input AF reg (fresh b) r (items_of reg b r vs)) (r_uses r)).
+
+Definition method_ok (r : recipe) : bool :=
+  uses_covered r && plain_method r && extra_ok r
+  && forallb is_idata (r_extra r).
+
+(* whatever the cache holds: once the required features were read with the
+   values [vs], the read returns [value_of ... vs] *)
+Lemma read_after_fold : forall reg n st f r s1 vs,
+  collide_ok reg = true ->
+  feat_raw (s_base st) f = None -> select SF reg st f = Some r ->
+  fold_left (hash_step (read n reg)) (r_feats r) (st, [], None)
+    = (s1, vs, None) ->
+  Inv reg s1 -> s_base s1 = s_base st -> method_ok r = true ->
+  snd (read (S n) reg st f) = Ok (value_of reg (s_base st) r f vs).
+Proof.
+  intros reg n st f r s1 vs Hco Hf Es Hfold HI Hb Hok.
+  unfold method_ok in Hok.
+  apply andb_prop in Hok. destruct Hok as [Hok Hidata].
+  apply andb_prop in Hok. destruct Hok as [Hok Hex].
+  apply andb_prop in Hok. destruct Hok as [Hcov Hmk].
+  destruct (select_some _ _ _ _ _ Es) as [Hin Hname].
+  pose proof (select_keys _ _ _ _ Es) as Hkeys.
+  destruct (plain_outcome reg st r Hmk Hkeys) as [Hm1 Hplain].
+  pose proof (fold_hash_len _ _ _ _ _ _ Hfold) as Hlen. cbn [length Nat.add] in Hlen.
+  rewrite read_S, Hf, Es, Hfold. cbv zeta. rewrite Hb.
+  rewrite (direct_data_base reg (fresh (s_base st)) s1 (r_extra r) Hb Hidata).
+  rewrite Hm1, (Hplain s1 Hb).
+  fold (items_of reg (s_base st) r vs).
+  set (items := items_of reg (s_base st) r vs).
+  assert (Hshape : shape r items).
+  { apply shape_built; [exact Hlen|].
+    destruct (rf_hashed r); [|reflexivity].
+    eexists. split; [reflexivity|]. now rewrite map_length. }
+  assert (Hview : forall s s',
+     map (view_input AF reg s r items) (r_uses r)
+     = map (view_input AF reg s' r items) (r_uses r)).
+  { intros s s'. apply map_ext_in. intros u Hu.
+    apply view_covered; auto.
+    unfold uses_covered in Hcov. rewrite forallb_forall in Hcov. auto. }
+  unfold value_of. fold items.
+  destruct (assoc f (s_cache s1)) as [[h v]|] eqn:Ea.
+  - destruct (items_eqb h items) eqn:Eh.
+    + cbn [snd app]. f_equal.
+      apply items_eqb_eq in Eh. subst h.
+      apply assoc_in in Ea.
+      destruct (HI _ _ Ea) as [r0 [st0 [Hin0 [Hout [Hs0 Hv]]]]].
+      cbn [fst snd] in Hs0, Hv.
+      assert (Hcol : collidable r0 r = true).
+      { apply (shape_collidable r0 r items); auto. now rewrite Hname. }
+      pose proof (collide_ok_use reg r0 r Hco Hin0 Hin Hcol) as Hsame.
+      unfold same_recipe_shape in Hsame.
+      apply andb_prop in Hsame. destruct Hsame as [Hsame Hk].
+      apply andb_prop in Hsame. destruct Hsame as [Hsame Hme].
+      apply andb_prop in Hsame. destruct Hsame as [Hsame Hu].
+      apply andb_prop in Hsame. destruct Hsame as [Hfe He].
+      apply zlist_eqb_eq in Hfe. apply inputs_eqb_eq in He.
+      apply inputs_eqb_eq in Hu. apply Z.eqb_eq in Hme. apply Z.eqb_eq in Hk.
+      assert (Hm02 : r_mkind r = 0 \/ r_mkind r = 2).
+      { unfold plain_method in Hmk. apply orb_prop in Hmk.
+        destruct Hmk as [H|H]; [left|right; apply andb_prop in H;
+                                     destruct H as [H _]];
+          now apply Z.eqb_eq in H. }
+      rewrite Hv by (rewrite Hk; exact Hm02). rewrite Hme, Hu. f_equal.
+      apply map_ext_in. intros u Hu'.
+      unfold view_input. rewrite (from_items_ext r0 r items u Hfe He).
+      assert (Hc : covered r u = true).
+      { unfold uses_covered in Hcov. rewrite forallb_forall in Hcov. auto. }
+      destruct (covered_found r items u Hex Hshape Hc) as [w Hw].
+      now rewrite Hw.
+    + cbn [snd app]. f_equal. f_equal. apply Hview.
+  - cbn [snd app]. f_equal. f_equal. apply Hview.
+Qed.
+
+(* a computed feature whose own required features are stored, read on ANY
+   state satisfying the invariant *)
+Lemma read_flat_value : forall reg n s g rg,
+  collide_ok reg = true -> Inv reg s ->
+  feat_raw (s_base s) g = None -> select SF reg s g = Some rg ->
+  forallb (in_base (s_base s)) (r_feats rg) = true -> method_ok rg = true ->
+  snd (read (S (S n)) reg s g)
+  = Ok (value_of reg (s_base s) rg g (map (raw_or0 (s_base s)) (r_feats rg))).
+Proof.
+  intros reg n s g rg Hco HI Hf Es Hflat Hok.
+  apply (read_after_fold reg (S n) s g rg s); auto.
+  rewrite (fold_flat reg n (r_feats rg) s [] Hflat). reflexivity.
+Qed.
+
+(* what may be required: a stored feature, or a computed one whose selection
+   cannot depend on the cache and whose own requirements are stored *)
+Definition chain_feat (reg : list recipe) (b : base) (g : Z) : bool :=
+  in_base b g
+  || (stable reg b g
+      && match select SF reg (fresh b) g with
+         | Some rg => forallb (in_base b) (r_feats rg) && method_ok rg
+         | None => false
+         end).
+
+Definition chain_val (reg : list recipe) (b : base) (g : Z) : val :=
+  match feat_raw b g with
+  | Some i => Raw i
+  | None =>
+      match select SF reg (fresh b) g with
+      | Some rg => value_of reg b rg g (map (raw_or0 b) (r_feats rg))
+      | None => Raw 0
+      end
+  end.
+
+Lemma fresh_cache_outs : forall reg b, cache_outs reg (fresh b).
+Proof. intros reg b x H. discriminate H. Qed.
+
+Lemma fold_chain : forall reg n fs s vs,
+  collide_ok reg = true -> Inv reg s ->
+  forallb (chain_feat reg (s_base s)) fs = true ->
+  exists s',
+    fold_left (hash_step (read (S (S n)) reg)) fs (s, vs, None)
+    = (s', vs ++ map (chain_val reg (s_base s)) fs, None)
+    /\ Inv reg s' /\ s_base s' = s_base s.
+Proof.
+  intros reg n. induction fs as [|g fs IH]; intros s vs Hco HI Hch.
+  - exists s. cbn [fold_left map]. rewrite app_nil_r. auto.
+  - cbn [forallb] in Hch. apply andb_prop in Hch. destruct Hch as [Hg Hfs].
+    cbn [fold_left map].
+    assert (Hstep : exists s1,
+      hash_step (read (S (S n)) reg) (s, vs, None) g
+      = (s1, vs ++ [chain_val reg (s_base s) g], None)
+      /\ Inv reg s1 /\ s_base s1 = s_base s).
+    { unfold chain_feat in Hg. unfold chain_val.
+      destruct (feat_raw (s_base s) g) as [i|] eqn:Ef.
+      - exists s. rewrite (hash_step_raw reg (S n) s vs g i Ef). auto.
+      - unfold in_base in Hg. rewrite Ef in Hg. cbn [orb] in Hg.
+        apply andb_prop in Hg. destruct Hg as [Hst Hsel].
+        destruct (select SF reg (fresh (s_base s)) g) as [rg|] eqn:Es;
+          [|discriminate Hsel].
+        apply andb_prop in Hsel. destruct Hsel as [Hflat Hok].
+        assert (Es' : select SF reg s g = Some rg).
+        { rewrite <- Es. apply select_stable; auto.
+          - now apply inv_cache_outs.
+          - apply fresh_cache_outs. }
+        pose proof (read_flat_value reg n s g rg Hco HI Ef Es' Hflat Hok) as Hv.
+        pose proof (read_inv reg (S (S n)) s g HI) as HI1.
+        pose proof (read_base reg (S (S n)) s g) as Hb1.
+        unfold hash_step.
+        destruct (read (S (S n)) reg s g) as [s1 x].
+        cbn [fst snd] in Hv, HI1, Hb1. subst x.
+        exists s1. auto. }
+    destruct Hstep as [s1 [Hs1 [HI1 Hb1]]]. rewrite Hs1.
+    rewrite <- Hb1 in Hfs.
+    destruct (IH s1 (vs ++ [chain_val reg (s_base s) g]) Hco HI1 Hfs)
+      as [s' [Hfold [HI' Hb']]].
+    exists s'. rewrite Hfold, Hb1, <- app_assoc. cbn [app].
+    split; [reflexivity|]. split; [exact HI'|]. now rewrite Hb', Hb1.
+Qed.
+
+(* Coherence for chains of length 2: a read returns what a dataset with the
+   same state and an empty cache returns when the selected recipe reads only
+   hashed ingredients, cannot reject its inputs, and every required feature
+   is stored or is itself computed from stored features by such a recipe
+   whose selection does not depend on the cache. *)
+Definition chain_recipe (reg : list recipe) (b : base) (r : recipe) : bool :=
+  forallb (chain_feat reg b) (r_feats r) && method_ok r.
+
+Theorem read_coherent_chain2 : forall reg st f,
+  collide_ok reg = true -> Inv reg st ->
+  select SF reg st f = select SF reg (clear st) f ->
+  (forall r, select SF reg st f = Some r ->
+     chain_recipe reg (s_base st) r = true) ->
+  snd (read RF reg st f) = snd (read RF reg (clear st) f).
+Proof.
+  intros reg st f Hco HI Hsel Hg.
+  destruct (feat_raw (s_base st) f) as [i|] eqn:Ef.
+  - rewrite RF_eq, !read_S. cbn [clear s_base]. rewrite Ef. reflexivity.
+  - destruct (select SF reg st f) as [r|] eqn:Es.
+    + specialize (Hg r eq_refl). unfold chain_recipe in Hg.
+      apply andb_prop in Hg. destruct Hg as [Hch Hok].
+      assert (HIc : Inv reg (clear st)) by (intros o hv H; destruct H).
+      destruct (fold_chain reg 5 (r_feats r) st [] Hco HI Hch)
+        as [s1 [Hf1 [HI1 Hb1]]].
+      destruct (fold_chain reg 5 (r_feats r) (clear st) [] Hco HIc Hch)
+        as [c1 [Hf2 [HI2 Hb2]]].
+      rewrite RF_eq.
+      rewrite (read_after_fold reg 7 st f r s1 _ Hco Ef Es Hf1 HI1 Hb1 Hok).
+      symmetry in Hsel.
+      rewrite (read_after_fold reg 7 (clear st) f r c1 _ Hco Ef Hsel Hf2 HI2
+                 Hb2 Hok).
+      reflexivity.
+    + rewrite RF_eq, !read_S. cbn [clear s_base]. rewrite Ef, Es, <- Hsel.
+      reflexivity.
+Qed.
+
+Theorem history_read_coherent_chain2 : forall reg b ops f,
+  collide_ok reg = true ->
+  let st := run_state reg (fresh b) ops in
+  select SF reg st f = select SF reg (clear st) f ->
+  (forall r, select SF reg st f = Some r ->
+     chain_recipe reg (s_base st) r = true) ->
+  snd (read RF reg st f) = snd (read RF reg (clear st) f).
+Proof.
+  intros reg b ops f Hco st Hsel Hg.
+  apply read_coherent_chain2; auto.
+  apply run_inv. apply fresh_inv.
+Qed.
